@@ -61,3 +61,64 @@ Definition case_ok (c : case) : bool :=
   | None => true
   end.
 Definition mismatches (l : list case) : list nat := bad_indices case_ok l.
+
+(* ------------------------------------------------------------------ `if (...) expand { … }` batches
+   (strengthening round 3).  One pack whose function `f` is exactly one expand statement; the batch is
+   given command by command in the form the lowering of Model.CondExpand takes it (the lines of each
+   command): a one-line command as text, or a nested lone `if` whose lines are computed by
+   parse_condition from ITS token list (so a nested condition with `||` is a several-line command that
+   goes to expand/k, and one without is an `execute` that is merged at the junction). *)
+From JMCV Require Import Model.PrivAlloc Model.CondExpand.
+
+Inductive xcmd :=
+| XLine (t : string)
+| XIf (toks : list tok) (tail : string).
+
+Record xcase := mkXCase {
+  x_nm : names;
+  x_toks : list tok;                    (* the condition of the expand statement *)
+  x_batch : list xcmd;
+  x_real : string;                      (* text of f, or "<refused>" *)
+  x_real_fns : list (string * string)   (* every expand/k function the compiler wrote: resource name, text *)
+}.
+
+Definition xlines (nm : names) (c : xcmd) : option (list cmd) :=
+  match c with
+  | XLine t => Some [COther t]
+  | XIf toks tail =>
+    match parse_condition nm toks with
+    | Some (p, cs) => Some (p ++ [guarded cs (COther tail)])
+    | None => None
+    end
+  end.
+
+Definition xmodel (c : xcase) : option (string * list (string * string)) :=
+  match parse_condition (x_nm c) (x_toks c), all_some (map (xlines (x_nm c)) (x_batch c)) with
+  | Some (pcs, cs), Some ls =>
+    let r := expand_code (x_nm c) pcs cs (number_batch ls 0) in
+    Some (pr_cmds (fst r), map (fun d => (fst d, pr_cmds (snd d))) (snd r))
+  | _, _ => None
+  end.
+
+Fixpoint xlookup (l : list (string * string)) (f : string) : option string :=
+  match l with
+  | [] => None
+  | (f', b) :: r => if String.eqb f f' then Some b else xlookup r f
+  end.
+Definition xfns_eq (a b : list (string * string)) : bool :=
+  Nat.eqb (length a) (length b) &&
+  forallb (fun d => match xlookup b (fst d) with Some t => String.eqb t (snd d) | None => false end) a.
+
+Definition xcase_ok (c : xcase) : bool :=
+  match xmodel c with
+  | Some (t, fs) => String.eqb t (x_real c) && xfns_eq fs (x_real_fns c)
+  | None => String.eqb (x_real c) "<refused>"
+  end.
+Definition xmismatches (l : list xcase) : list nat := bad_indices xcase_ok l.
+
+Definition xnl : string := String (Ascii.ascii_of_nat 10) EmptyString.
+Definition xmodel_text (c : xcase) : string :=
+  match xmodel c with
+  | Some (t, fs) => String.concat xnl (t :: map (fun d => ("== " ++ fst d ++ xnl ++ snd d)%string) fs)
+  | None => "<refused>"
+  end.
